@@ -1,5 +1,5 @@
 """Per-property checks. Each function fills a Ctx (obligations, violations, coverage)."""
-import json, os, re
+import hashlib, json, os, re
 from vlib import *
 
 M2_TRUST = [
@@ -49,4 +49,143 @@ def check_C15(ctx):
     drv.readonly_C15(ctx, proof_ok=ok)
 
 
-REGISTRY = {"C10": check_C10, "C15": check_C15}
+
+# ---------------------------------------------------------------- FS-history properties
+
+M1_TRUST = [
+    "hand-written model M1 (coq/Model/*.v); tied to /repo by the correspondence run of this check: the same histories are executed on the real code (stfsdrv) and inside Coq (vm_compute of Diff.mismatches), compared on outcome class, every index row (all columns, tombstones included), the visible tree with contents, and the tape length",
+    "environment oracle: header block counts, encoded sizes and clock readings observed on the implementation are inputs of the model run",
+    "modelled, not verified: archive/tar byte encoding (parse(emit h) = h), SQLite/sqlboiler (row order of unindexed scans = rowid order, LIMIT 1 by primary-key order), the Go runtime",
+    "the correspondence is differential testing: its reach is bounded by the generator (distribution recorded in coverage)",
+]
+
+
+def classify_C02(h, res, f):
+    """known-finding signatures for C02 oracle failures"""
+    if f["kind"] == "tree-differs-from-reference":
+        d = f["detail"]
+        op, diffs = d[0], d[1:]
+        if op in ("createfile", "writefile") and len(diffs) == 1:
+            p, a, b = diffs[0]
+            if a is not None and b is not None and a[:4] == b[:4] and a[6:] == b[6:] and a[4:6] == [0, 0] and a[4:6] != b[4:6]:
+                return "C02-owner-reset-on-flush"
+            if a is not None and b is not None and tuple(a[:4]) == tuple(b[:4]) and tuple(a[6:]) == tuple(b[6:]) and tuple(a[4:6]) == (0, 0):
+                return "C02-owner-reset-on-flush"
+    return None
+
+
+def fs_differential(ctx, data):
+    """Correspondence M1 <-> implementation over the stream (cached per tree/seed/tier)."""
+    import hist, streams
+    cached, p = streams.cache_get(ctx, "fsdiff")
+    if cached is None:
+        terms, idx = [], []
+        for i, d in enumerate(data):
+            t = hist.emit_case(d["h"], d["res"], hist.identity_of(d["res"]))
+            if t:
+                terms.append(t)
+                idx.append(i)
+        mm_all, okall, log = [], True, ""
+        # shard: a few hundred cases per coqc call
+        for k in range(0, len(terms), 120):
+            ok, mm, lg = hist.coq_mismatches(terms[k:k + 120], "fs%d_%d" % (ctx.seed, k))
+            okall = okall and ok
+            log += lg
+            mm_all += [(idx[k + ci], call, kind) for ci, call, kind in mm]
+        cached = dict(ok=okall, mm=mm_all, log=log[-2000:], cases=len(terms),
+                      calls=sum(min(len(data[i]["res"]), len(data[i]["h"]["calls"])) for i in idx))
+        streams.cache_put(p, cached)
+    return cached
+
+
+KINDS = {1: "outcome", 2: "index rows", 3: "visible tree", 4: "tape length", 9: "length"}
+
+
+def fs_property(ctx, pid, module, theorems, oracle, classify=None, needs_ref=False, findings_module=None):
+    import collections, hist, streams, oracles
+    ctx.trusted += M1_TRUST
+    proof_ok = coq_props(ctx, module, theorems, findings_module)
+    data = streams.fs_stream(ctx)
+    ref = streams.ref_stream(ctx, data) if needs_ref else None
+    # 1. tie: model vs implementation
+    diff = fs_differential(ctx, data)
+    ctx.oblige("correspondence: model M1 evaluates in Coq on the observed histories", diff["ok"], diff["log"])
+    ctx.oblige("correspondence: M1 and the implementation agree on every compared call (%d histories, %d calls)" % (diff["cases"], diff["calls"]),
+               diff["ok"] and not diff["mm"], json.dumps(diff["mm"][:5]))
+    for (hi, call, kind) in diff["mm"][:3]:
+        d = data[hi]
+        ctx.violation("correspondence", "model and implementation disagree on %s at call %d" % (KINDS.get(kind, kind), call),
+                      dict(history=d["h"], first_disagreeing_call=call, observable=KINDS.get(kind, kind),
+                           implementation=[dict(i=r["i"], op=r["op"], out=r["out"], err=r.get("err")) for r in d["res"][:call + 1]]),
+                      found_input=False)
+    # 2. the property stated on the implementation
+    ops, outs = collections.Counter(), collections.Counter()
+    distinct = set()
+    fails = 0
+    for k, d in enumerate(data):
+        h, res = d["h"], d["res"]
+        for c, r in zip(h["calls"], res):
+            ops[c["op"]] += 1
+            outs[r["out"]] += 1
+        sig = tuple((c["op"], r["out"]) for c, r in zip(h["calls"], res))
+        if any(o == "ok" for (op, o) in sig[1:] if op not in ("reopen",)):
+            distinct.add(hashlib.sha256(json.dumps([h["calls"], [r["out"] for r in res]], sort_keys=True).encode()).hexdigest())
+        if d["rc"] != 0:
+            last = res[-1] if res else {}
+            ctx.violation("crash-or-hang", "history ended with exit code %s (%s)" % (d["rc"], last.get("out")),
+                          dict(history=h, exit_code=d["rc"], stderr=d["err"][-500:], last=last.get("op")))
+            fails += 1
+            continue
+        fl = oracle(h, res, ref[k]) if needs_ref else oracle(h, res)
+        for f in fl:
+            fid = classify(h, res, f) if classify else None
+            if fid and any(x["id"] == fid for x in ctx.findings):
+                ctx.known(fid, next(x["what"] for x in ctx.findings if x["id"] == fid))
+                continue
+            fails += 1
+            if fails <= 5:
+                ctx.violation(f["kind"], "%s at call %d (%s)" % (f["kind"], f["i"], h["calls"][f["i"]]["op"]),
+                              dict(history=dict(config=h["config"], blobs=h["blobs"], calls=h["calls"][:f["i"] + 1], obs=h.get("obs")),
+                                   failing_call=f["i"], detail=f["detail"], corpus=h.get("_corpus")))
+    ctx.oblige("oracle: the property holds on the implementation for every explored history (known findings apart)", fails == 0, "%d failures" % fails)
+    sample = data[min(len(data) - 1, 3)]
+    ctx.coverage.update(
+        evaluations=sum(len(d["res"]) for d in data), histories=len(data), distinct_nontrivial=len(distinct),
+        rule="histories = corpus + PRNG(VERIF_SEED) generated call sequences over a hostile name alphabet, record sizes {1,2,3,7,20,64}, content size classes around block and record boundaries; distinct = different (calls, outcomes) sequence; non-trivial = at least one successful mutation after Initialize",
+        op_histogram=dict(ops), outcome_histogram=dict(outs),
+        traces_validated_against_impl=diff["cases"],
+        samples=[dict(config=sample["h"]["config"], calls=sample["h"]["calls"][:8], outcomes=[r["out"] for r in sample["res"][:8]])])
+
+
+def check_C01(ctx):
+    import oracles
+    fs_property(ctx, "C01", "C01", ["C01_rebuild_ignores_index", "C01_rebuild_prefix_stable", "C01_demo"], oracles.c01)
+
+
+def check_C02(ctx):
+    import oracles
+    fs_property(ctx, "C02", "C02", ["C02_readonly_refuses"], oracles.c02, classify=classify_C02, needs_ref=True)
+
+
+def check_C04(ctx):
+    import oracles
+    fs_property(ctx, "C04", "C04", ["C04_pos_arith", "C04_pos_unique", "C04_branches_dead", "C04_positions_stable"], oracles.c04)
+
+
+def check_C05(ctx):
+    import oracles
+    fs_property(ctx, "C05", "C05", ["C05_step_appends", "C05_history_appends", "C05_records_stay", "C05_nonvacuous"], oracles.c05)
+
+
+def check_C12(ctx):
+    import oracles
+    fs_property(ctx, "C12", "C12", ["C12_children_exact", "C12_like_implied", "C12_like_alone_refuted"], oracles.c12)
+
+
+def check_C13(ctx):
+    import oracles
+    fs_property(ctx, "C13", "C13", ["C13_limit"], oracles.c13)
+
+
+REGISTRY = {"C10": check_C10, "C15": check_C15, "C01": check_C01, "C02": check_C02, "C04": check_C04, "C05": check_C05,
+            "C12": check_C12, "C13": check_C13}
